@@ -413,19 +413,13 @@ func constructorRules(x *Ctx, ms *ssa.Function, evalCases map[string]string) {
 			x.C.Unresolved("C11.R1", "constructor-shape:"+name, x.pos(outer), fmt.Sprintf("expected one straight path returning the constructor function, found %d", len(ops)))
 			continue
 		}
-		inner, bind := x.closureEnv(ops[0], ops[0].Results()[0])
-		if inner == nil || len(inner.Blocks) == 0 {
+		rf := x.returnedFunc(ops[0], ops[0].Results()[0])
+		if rf == nil {
 			x.C.Unresolved("C11.R1", "constructor-value:"+name, x.pos(outer), "the value returned is not a function literal, function or method value: "+ops[0].Results()[0].String())
 			continue
 		}
-		inOuter := func(t *paths.Term) string {
-			s := t.String()
-			for fv, par := range bind {
-				s = strings.ReplaceAll(s, fv, par)
-			}
-			return s
-		}
-		sel, unk, err := x.E.Select(inner, paths.WantSuccess)
+		inOuter := rf.Tr
+		sel, unk, err := x.E.SelectFrom(rf.Paths, rf.Fn, paths.WantSuccess)
 		ok := err == nil && len(unk) == 0 && len(sel) > 0
 		detail := ""
 		for _, v := range sel {
